@@ -8,6 +8,7 @@ import (
 	"fmt"
 	"io"
 	"log/slog"
+	"net"
 	"net/http"
 	"reservoir/cache"
 	"reservoir/config"
@@ -17,6 +18,8 @@ import (
 	"reservoir/proxy/responder"
 	"reservoir/utils/httplistener"
 	"reservoir/utils/typeutils"
+	"strconv"
+	"strings"
 	"time"
 )
 
@@ -30,6 +33,7 @@ var (
 	ErrReadRequestFailed    = errors.New("error reading request from client")
 	ErrRangeNotSatisfiable  = errors.New("range not satisfiable")
 	ErrIfRangeMismatch      = errors.New("If-Range header mismatch")
+	ErrRequestLoop          = errors.New("request names the proxy itself as its origin")
 	ErrBadGateway           = errors.New("bad gateway. Error when sending request to upstream")
 )
 
@@ -296,9 +300,33 @@ func (p *Proxy) processRequest(r responder.Responder, req *http.Request, key cac
 	}
 }
 
+// Reports whether the request names, as its origin, the very address it arrived on.
+func isOwnAddress(req *http.Request) bool {
+	local, ok := req.Context().Value(http.LocalAddrContextKey).(*net.TCPAddr)
+	if !ok {
+		return false // e.g. a request read from a CONNECT tunnel
+	}
+	host, port, err := net.SplitHostPort(req.Host)
+	if err != nil || port != strconv.Itoa(local.Port) {
+		return false
+	}
+	if ip := net.ParseIP(host); ip != nil {
+		return ip.Equal(local.IP) || (ip.IsLoopback() && local.IP.IsLoopback())
+	}
+	return strings.EqualFold(host, "localhost") && local.IP.IsLoopback()
+}
+
 func (p *Proxy) handleHTTP(r responder.Responder, proxyReq *http.Request) error {
 	slog.Debug("Handling HTTP request", "host", proxyReq.Host, "remote_addr", proxyReq.RemoteAddr)
 	metrics.Global.Requests.HTTPProxyRequests.Increment()
+
+	if isOwnAddress(proxyReq) {
+		// Fetched from upstream, this request would arrive here again with the same cache key and be made to
+		// wait for the very fetch that is waiting for it: neither would ever be answered.
+		slog.Warn("Refusing a request that names the proxy itself as its origin", "host", proxyReq.Host, "remote_addr", proxyReq.RemoteAddr)
+		r.WriteError("request loop: this proxy is not an origin server", http.StatusLoopDetected)
+		return ErrRequestLoop
+	}
 
 	// What the client declared hop-by-hop ends here, before anything is read from or added to the
 	// request: stripped only at send time, a Connection header naming If-None-Match / If-Modified-Since
